@@ -306,13 +306,14 @@ theorem addClosed_good : AddClosed Good :=
 
 theorem addTx_pres (hc : AddClosed I) (s : Pool) (t : Tx) (loc : Bool) (sh : Shape) (vs : List Tx) (sl qo : List Addr)
     (h : I s) : I (s.addTx t loc sh vs sl qo).2 := by
+  have ha := add_pres hc s t (loc && !s.cfg.noLocals) sh vs h
   unfold Pool.addTx
   simp only
   split
-  · exact add_pres hc _ _ _ _ _ h
+  · exact ha
   · split
-    · exact promoteExecutables_pres hc.toClosed _ _ _ _ (add_pres hc _ _ _ _ _ h)
-    · exact add_pres hc _ _ _ _ _ h
+    · exact promoteExecutables_pres hc.toClosed (s.add t (loc && !s.cfg.noLocals) sh vs).2.2 (some [t.sender]) sl qo ha
+    · exact ha
 
 theorem addMany_pres (hc : AddClosed I) (loc : Bool) : ∀ (ts : List Tx) (vs : List (List Tx)) (s : Pool), I s →
     I (s.addMany loc ts vs).2.2 := by
@@ -321,16 +322,18 @@ theorem addMany_pres (hc : AddClosed I) (loc : Bool) : ∀ (ts : List Tx) (vs : 
   | nil => intro vs s h; exact h
   | cons t ts ih =>
     intro vs s h
+    have ha := add_pres hc s t loc .wellformed (vs.headD []) h
     unfold Pool.addMany
-    exact ih _ _ (add_pres hc _ _ _ _ _ h)
+    exact ih vs.tail (s.add t loc .wellformed (vs.headD [])).2.2 ha
 
 theorem addTxs_pres (hc : AddClosed I) (s : Pool) (ts : List Tx) (loc : Bool) (vs : List (List Tx)) (sl qo : List Addr)
     (h : I s) : I (s.addTxs ts loc vs sl qo).2 := by
+  have ha := addMany_pres hc loc ts vs s h
   unfold Pool.addTxs
   simp only
   split
-  · exact addMany_pres hc _ _ _ _ h
-  · exact promoteExecutables_pres hc.toClosed _ _ _ _ (addMany_pres hc _ _ _ _ h)
+  · exact ha
+  · exact promoteExecutables_pres hc.toClosed (s.addMany loc ts vs).2.2 (some (s.addMany loc ts vs).2.1.eraseDups) sl qo ha
 
 theorem setGasPrice_good (s : Pool) (p : Nat) (h : Good s) : Good (s.setGasPrice p) := by
   unfold Pool.setGasPrice
